@@ -62,6 +62,9 @@ pub fn templates() -> Vec<&'static str> {
         "$0 && (1/0)", "$0 || (1/0)", "(1/0) || $0", "(1/0) && $0", "$0 ? (1/0) : $1", "$0 ? $1 : (1/0)", "[$0, 1/0][0]",
         "$0 && [1][5]", "$0 || int('x')", "($0 && (1/0)) ? 1 : 2", "[1].map(x, $0 && (1/0))", "!($0 && (1/0))",
         "$0 && $1 && (1/0)", "$0 || $1 || (1/0)", "($0 || (1/0)) && $1",
+        // a failing argument of a function or conversion, constant or not
+        "type(1 / $0)", "bool(1 / $0)", "max(2, 1 / $0)", "string(1 / $0)", "size([1 / $0])", "dyn(1 / $0)", "int(1 % $0) + 1", "abs(1 / $0)",
+        "(1 / $0).size()", "'a'.contains(1 / $0)", "min(1 / $0, $1)", "zip([1 / $0], [$1])", "f'{1 / $0}'", "[1].map(x, type(1 / $0))",
         // a constant failing condition, and two operands that fail in different ways
         "(1/0) ? $0 : $1", "(1 / $0) ? $1 : $2", "[1][5] ? $0 : $1", "!(1 / $0) ? $1 : $2",
         "(1 / $0) + (1 % $1)", "(1 / $0) - (1 % $1)", "(1 / $0) * (1 % $1)", "(1 / $0) / (1 % $1)", "(1 / $0) % (1 % $1)",
